@@ -187,7 +187,8 @@ class C10(Check):
         L = 3 if thorough else 2
         D = 4 if thorough else 3
         self.bounds = {'align_sizes': [list(s) for s in sizes], 'restraint_list_len_max': L,
-                       'hydrogen_masks': 'all 2^n-1 on the larger molecule x {none, atom 0} on the smaller',
+                       'hydrogen_masks': 'all 2^n-1 on the larger molecule x {none, atom 0} on the smaller '
+                                         '(5-atom sizes: the atom-0 variant only with lists up to length 2)',
                        'splitter_lengths': [40, 40], 'splitter_offsets': [[0, 7], [0, 11]],
                        'protein_vectors': 84, 'manager_species': [2, 3], 'manager3_max_deviations': D,
                        'guess_align_vectors': [list(v) for v in GUESS_VECS]}
@@ -197,9 +198,10 @@ class C10(Check):
             nl = max(ns, ne)
             for hm in range(2 ** nl - 1):
                 for mh in (0, 1):
-                    if ns * ne >= 15:
+                    if ns * ne >= 15:       # 5-atom sizes: hydrogen on the smaller molecule only to length 2
                         for ign in (1, 0):
-                            u.append({'k': 'align', 'ns': ns, 'ne': ne, 'hm': hm, 'mh': mh, 'L': L, 'igns': [ign]})
+                            u.append({'k': 'align', 'ns': ns, 'ne': ne, 'hm': hm, 'mh': mh,
+                                      'L': min(L, 2) if mh else L, 'igns': [ign]})
                     else:
                         u.append({'k': 'align', 'ns': ns, 'ne': ne, 'hm': hm, 'mh': mh, 'L': L, 'igns': [1, 0]})
         for a in range(len(R_OPTS)):
